@@ -70,7 +70,7 @@ INJECTIONS = {
                      "f > #value.real", "f(#enter.x) > x", "g > f > #error.args", "f > #exit.code"],
     "non-tag-category": ["f > x:n", "f > x:1", "f > $v:n", "f(x:K) > z", "f:n > x",
                          "f:0 > x", "g > f:0 > z", "f:'' > x", "f > $v:0", "f(x:0) > z", "f:zero > x"],
-    "unresolvable-function": ["nope > x", "g > nope > x", "nope(x) > y", "g(nope(!x))"],
+    "unresolvable-function": ["nope > x", "g > nope > x", "nope(x) > y", "g(nope(!x))", "/.x/f > y", "g > /.x/f > y", "/x..y/f > y"],
     "second-focus-without-first": ["f(!!x)", "f(x, !!z)", "g(f(!!z))", "g(!!x, f(z))"],
     "unknown-variable": ["f > nope", "f(nope) > x", "g(x, f(!q))"],
     "non-function-target": ["n > x", "K > x", "len > x", "obj > x"],
@@ -410,6 +410,30 @@ def work(unit, tier):
             # ... also next to a selector that has a focus, in one overridable probe
             must_refuse(("f > x", t), make_env, part, "no-focus-overridable", True)
             must_refuse((t, "f > x"), make_env, part, "no-focus-overridable", True)
+        # a parenthesised sequence among the arguments of a call keeps its members, wherever it stands
+        from ptera.selector import parse
+
+        for a, b in [("f((x, z), y)", "f(x, z, y)"), ("f(y, (x, z))", "f(y, x, z)"), ("f((x, z), y) > w", "f(x, z, y) > w"),
+                     ("g(f((x, z)), y)", "g(f(x, z), y)"), ("f((x), (z))", "f(x, z)"), ("f(((x, z)), y)", "f(x, z, y)")]:
+            part["cases"] += 1
+            part["evaluations"] += 1
+            part["steps"] += 1
+            try:
+                pa, pb = parse(a), parse(b)
+            except SyntaxError:
+                part["outcomes"]["group:syntax-error"] += 1
+                continue
+            except BaseException as e:
+                part["violations"].append(violation(PROP, "internal:" + type(e).__name__, {"text": a, "stage": "parse", "inject": "group"},
+                                                    f"{a!r}: {type(e).__name__}: {e}", tags=["inject:group"]))
+                continue
+            part["outcomes"]["group:parsed"] += 1
+            if pa is not pb:
+                part["violations"].append(violation(PROP, "members-dropped", {"text": a, "stage": "parse", "inject": "group"},
+                                                    f"{a!r} compiles to {pa}, not to what {b!r} compiles to ({pb}): it is neither refused nor kept whole",
+                                                    tags=["inject:group"]))
+            else:
+                part["nontrivial"] += 1
         for t in INJECTIONS["second-focus-without-first"]:
             # the verdict does not depend on what was attempted before on the same functions, nor on the
             # kind of probe asked for
